@@ -229,6 +229,9 @@ def line_faults(d, rnd, tier):
     out.append(('longline', lambda d: [b'SSH-2.0-' + b'A' * 70000 + b'\r\n']))
     out.append(('ssh1only', lambda d: [b'SSH-1.5-OldServer\r\n']))
     out.append(('notssh', lambda d: [b'HTTP/1.1 400 Bad Request\r\n\r\n', fakenet.EOF]))
+    # identification strings without a software part (what the probes later read off the first one must cope with there being none)
+    for i, line in enumerate((b'SSH-2.0', b'SSH-2.0-', b'SSH-2.0- note', b'SSH-1.99')):
+        out.append(('nosoftware%d' % i, (lambda d, line=line: [line + b'\r\n'])))
     # well-formed identification strings whose software version is odd: empty components, a lone dot, huge numbers, no digits
     for i, sw in enumerate((b'OpenSSH_8..9p1', b'dropbear_2022..83', b'OpenSSH_.5', b'libssh_0.', b'libssh-0..10.6', b'OpenSSH_99999999999999999999.1', b'OpenSSH_', b'dropbear_',
                             b'OpenSSH_7.4.', b'OpenSSH_1.2.3.4.5.6.7.8.9')):
@@ -300,6 +303,22 @@ def build(tier, rnd):
                 c['mutate'] = mk_mutator(n, idx, fn)
                 scs.append(mk(c))
                 meta.append((name, 'conn%d/%s#%d/%s' % (n, kind, idx, fname), (n, kind), cfg, True))
+        # the connection-rate check of a standard audit (it runs when the server offers a Diffie-Hellman key exchange and the check is
+        # not skipped): every connection after the probes is reset / closed / left silent / answered with noise instead of a banner,
+        # or only every other one is
+        if role == 'server' and cfg.get('ssh1') is None:
+            last_probe = max(p[0] for p in pts)
+            for fname, fn in (('reset', f_reset), ('eof', f_eof), ('stall', f_stall), ('random', f_random(11))):
+                for which in ('all', 'odd'):
+                    c = Cfg(cfg)
+
+                    def rate_fault(n, kind, idx, data, fn=fn, which=which, last_probe=last_probe):
+                        if n > last_probe and kind == 'banner' and (which == 'all' or n % 2 == 1):
+                            return fn(data)
+                        return [data]
+                    c['mutate'] = rate_fault
+                    scs.append(mk(c, skip_rate=False))
+                    meta.append((name, 'rate-check/%s-banners/%s' % (which, fname), (last_probe + 1, 'banner'), cfg, False))
         # the same probe-phase faults under a policy audit: the policy is evaluated on whatever the probes managed to measure
         if role == 'server' and cfg.get('gex') and cfg.get('ssh1') is None:
             for (n, idx, kind, data) in pts:
